@@ -447,6 +447,80 @@ theorem flattenLoop_inv (fuel : Nat) (order : List String) (n0 n' : List (String
     (h : flattenLoop fuel order n0 = some n') : FlatInv n0 n' :=
   flattenLoop_pres (FlatInv n0) (flatInv_step n0) fuel order n0 n' (flatInv_refl n0) h
 
+theorem absorb_unchanged (nodes : List (String × Node)) (ss ss' : List CSplit)
+    (h : absorb nodes ss = some (ss', false)) :
+    ∀ s ∈ ss, ∀ n, alook s.next nodes = some n → n.isSplitter = false := by
+  induction ss generalizing ss' with
+  | nil => intro s hs; cases hs
+  | cons s rest ih =>
+    rw [absorb] at h
+    split at h
+    · cases h
+    · rename_i rest' ch' hr
+      split at h
+      · cases h
+      · simp at h
+      · rename_i n hns hn
+        simp only [Option.some.injEq, Prod.mk.injEq] at h
+        obtain ⟨_, rfl⟩ := h
+        intro x hx n' hn'
+        rcases List.mem_cons.mp hx with rfl | hx
+        · rw [hn] at hn'; cases hn'
+          cases n with
+          | splitter i l => exact absurd rfl (hns i l)
+          | router _ => rfl
+          | resolver _ _ _ _ _ _ => rfl
+        · exact ih rest' hr x hx n' hn'
+
+theorem flattenRound_unchanged (nodes : List (String × Node)) (order : List String) (n' : List (String × Node))
+    (h : flattenRound nodes order = some (n', false)) :
+    n' = nodes ∧ ∀ k ∈ order, ∀ ss lb, alook k nodes = some (.splitter ss lb) →
+      ∀ s ∈ ss, ∀ n, alook s.next nodes = some n → n.isSplitter = false := by
+  fun_induction flattenRound nodes order generalizing n' with
+  | case1 nodes => cases h; exact ⟨rfl, fun k hk => nomatch hk⟩
+  | case2 nodes k ks hn => cases h
+  | case3 nodes k ks ss lb hn ha => cases h
+  | case4 nodes k ks ss lb hn ss' ch ha hr ih => cases h
+  | case5 nodes k ks ss lb hn ss' ch ha n'' ch' hr ih =>
+    simp only [Option.some.injEq, Prod.mk.injEq, Bool.or_eq_false_iff] at h
+    obtain ⟨rfl, rfl, rfl⟩ := h
+    simp only [Bool.false_eq_true, if_false] at hr ih
+    obtain ⟨e, hall⟩ := ih _ hr
+    refine ⟨e, ?_⟩
+    intro k' hk' ss1 lb1 h1
+    rcases List.mem_cons.mp hk' with rfl | hk'
+    · rw [hn] at h1; cases h1
+      exact absorb_unchanged nodes _ ss' ha
+    · exact hall k' hk' ss1 lb1 h1
+  | case6 nodes k ks n hns hn ih =>
+    obtain ⟨e, hall⟩ := ih _ h
+    refine ⟨e, ?_⟩
+    intro k' hk' ss1 lb1 h1
+    rcases List.mem_cons.mp hk' with rfl | hk'
+    · rw [hn] at h1; cases h1; exact absurd rfl (hns ss1 lb1)
+    · exact hall k' hk' ss1 lb1 h1
+
+theorem flattenLoop_flat (fuel : Nat) (order : List String) (nodes n' : List (String × Node))
+    (h : flattenLoop fuel order nodes = some n') :
+    ∀ k ∈ order, ∀ ss lb, alook k n' = some (.splitter ss lb) →
+      ∀ s ∈ ss, ∀ n, alook s.next n' = some n → n.isSplitter = false := by
+  induction fuel generalizing nodes with
+  | zero => simp [flattenLoop] at h
+  | succ f ih =>
+    rw [flattenLoop] at h
+    split at h
+    · cases h
+    · rename_i n1 ch hr
+      split at h
+      · exact ih n1 h
+      · rename_i hch
+        cases h
+        have : ch = false := by cases ch <;> simp_all
+        subst this
+        obtain ⟨e, hall⟩ := flattenRound_unchanged nodes order _ hr
+        subst e
+        exact hall
+
 /-! ### `sort.Strings`: the visiting order of the repaired flatten depends only on the *set* of keys -/
 
 theorem insertKey_perm (k : String) (l : List String) : (insertKey k l).Perm (k :: l) := by
